@@ -1417,7 +1417,13 @@ orc_compiler_get_constant (OrcCompiler *compiler, int size, int value)
     }
   }
   if (i == compiler->n_constants) {
-    compiler->n_constants++;
+    if (compiler->n_constants >= ORC_N_CONSTANTS) {
+      /* reuse the last slot: the compile is abandoned anyway */
+      orc_compiler_error (compiler, "too many constants");
+      i = ORC_N_CONSTANTS - 1;
+    } else {
+      compiler->n_constants++;
+    }
     compiler->constants[i].value = v;
     compiler->constants[i].alloc_reg = 0;
     compiler->constants[i].use_count = 0;
@@ -1465,7 +1471,13 @@ orc_compiler_try_get_constant_long (OrcCompiler *compiler,
     }
   }
   if (i == compiler->n_constants) {
-    compiler->n_constants++;
+    if (compiler->n_constants >= ORC_N_CONSTANTS) {
+      /* reuse the last slot: the compile is abandoned anyway */
+      orc_compiler_error (compiler, "too many constants");
+      i = ORC_N_CONSTANTS - 1;
+    } else {
+      compiler->n_constants++;
+    }
     compiler->constants[i].full_value[0] = a;
     compiler->constants[i].full_value[1] = b;
     compiler->constants[i].full_value[2] = c;
